@@ -314,3 +314,139 @@ Definition name_from_str (s : str) : pres name :=
                  end in
     comps_from_strs strs2
   end.
+
+(* ======================================================================================================
+   Additions for C14 (second round): decidable URI well-formedness, patterns.  Nothing above is changed. *)
+
+(* --- the domain of the URI round trip: types 1..65535, values are bytes, numeric-convention components
+       (the conventions whose value format is decimal) hold a shortest-form Nat --- *)
+Definition is_dec_conv (t : N) : bool :=
+  match conv_by_type t with Some (_, FDec) => true | _ => false end.
+Definition shortest_natb (v : bytes) : bool :=
+  (be_val v <? two64) && bytes_eqb (nat_enc (be_val v)) v.
+Definition comp_uri_wfb (c : comp) : bool :=
+  (1 <=? ctyp c) && (ctyp c <=? 65535) && bytes_okb (cval c) &&
+  (if is_dec_conv (ctyp c) then shortest_natb (cval c) else true).
+Definition uri_wfb (n : name) : bool := forallb comp_uri_wfb n.
+(* domain of the CanonicalString round trip: no condition on numeric conventions *)
+Definition comp_canon_wfb (c : comp) : bool :=
+  (1 <=? ctyp c) && (ctyp c <=? 65535) && bytes_okb (cval c).
+
+(* --- patterns (name_component.go Pattern / ComponentPatternFromStr, name_pattern.go NamePatternFromStr) --- *)
+Inductive cpat := CPComp (c : comp) | CPPat (t : N) (tag : str).
+Definition npat := list cpat.
+
+(* Pattern.String / Pattern.CanonicalString *)
+Definition pat_to_str (t : N) (tag : str) : str :=
+  if t =? 8 then [60] ++ tag ++ [62]
+  else match conv_by_type t with
+       | Some (nm, _) => [60] ++ nm ++ [61] ++ tag ++ [62]
+       | None => [60] ++ to_dec t ++ [61] ++ tag ++ [62]
+       end.
+Definition pat_to_canon (t : N) (tag : str) : str :=
+  if t =? 8 then [60] ++ tag ++ [62] else [60] ++ to_dec t ++ [61] ++ tag ++ [62].
+Definition cpat_to_str (p : cpat) : str :=
+  match p with CPComp c => comp_to_str c | CPPat t tag => pat_to_str t tag end.
+(* NamePattern.String: the trailing "/" is only added when the last element is a *Component (pointer); the
+   parser and every constructor in the repository store Component values, so it is never added. *)
+Definition npat_to_str (n : npat) : str :=
+  match n with [] => [47] | _ => concat (map (fun c => 47 :: cpat_to_str c) n) end.
+
+Definition last_opt {A} (l : list A) : option A :=
+  match rev l with [] => None | x :: _ => Some x end.
+
+(* ComponentPatternFromStr.  Unchecked operations carry an explicit PPanic branch:
+     s[0] (guarded by len(s) <= 0), s[len(s)-1], s[1:len(s)-1], strs[0]/strs[1] after strings.Split. *)
+Definition comp_pattern_from_str (s : str) : pres cpat :=
+  let plain := match comp_from_str s with POk c => POk (CPComp c) | PErr => PErr | PPanic => PPanic end in
+  if (length s <=? 0)%nat then plain else
+  match s with
+  | [] => PPanic                                        (* s[0] on the empty string *)
+  | c0 :: _ =>
+    if negb (c0 =? 60) then plain else
+    match last_opt s with
+    | None => PPanic                                    (* s[len(s)-1] on the empty string *)
+    | Some cl =>
+      if negb (cl =? 62) then PErr else
+      if (length s <? 2)%nat then PPanic                (* s[1:len(s)-1] with 1 > len(s)-1 *)
+      else
+        let inner := firstn (length s - 2) (skipn 1 s) in
+        let strs := split_on 61 inner [] in
+        if (2 <? length strs)%nat then PErr else
+        if (length strs =? 2)%nat then
+          match strs with
+          | ts :: tag :: _ =>
+            match parse_comp_type ts with
+            | POk (t, _) => POk (CPPat t tag)
+            | PErr => PErr
+            | PPanic => PPanic
+            end
+          | _ => PPanic                                 (* strs[0], strs[1] *)
+          end
+        else match strs with
+             | tag :: _ => POk (CPPat 8 tag)
+             | [] => PPanic                             (* strs[0] *)
+             end
+    end
+  end.
+
+Fixpoint cpats_from_strs (l : list str) : pres npat :=
+  match l with
+  | [] => POk []
+  | s :: r => match comp_pattern_from_str s with
+              | POk c => match cpats_from_strs r with POk n => POk (c :: n) | e => e end
+              | PErr => PErr
+              | PPanic => PPanic
+              end
+  end.
+
+(* NamePatternFromStr (with the len(strs) > 0 guard of commit 2e94774) *)
+Definition name_pattern_from_str (s : str) : pres npat :=
+  let strs := split_on 47 s [] in
+  match strs with
+  | [] => PPanic                                         (* strs[0] *)
+  | s0 :: r =>
+    let strs1 := if (length s0 =? 0)%nat then r else strs in
+    if (0 <? length strs1)%nat then
+      match last_opt strs1 with
+      | None => PPanic                                   (* strs[len(strs)-1] on an empty slice *)
+      | Some l => cpats_from_strs (if (length l =? 0)%nat then removelast strs1 else strs1)
+      end
+    else cpats_from_strs strs1
+  end.
+
+(* the same function without that guard = the code before the fix; kept to show the guard is needed *)
+Definition name_pattern_from_str_unguarded (s : str) : pres npat :=
+  let strs := split_on 47 s [] in
+  match strs with
+  | [] => PPanic
+  | s0 :: r =>
+    let strs1 := if (length s0 =? 0)%nat then r else strs in
+    match last_opt strs1 with
+    | None => PPanic
+    | Some l => cpats_from_strs (if (length l =? 0)%nat then removelast strs1 else strs1)
+    end
+  end.
+
+(* Name.ToFullName: n[len(n)-1] with no length check (not a string parser; see docs/C14.md) *)
+Definition to_full_name (digest : bytes) (n : name) : pres name :=
+  match last_opt n with
+  | None => PPanic
+  | Some l => if ctyp l =? 1 then POk n else POk (n ++ [mkc 1 digest])
+  end.
+
+(* Pattern compare / equal (strings.Compare on tags = bytewise) *)
+Definition cpat_cmp (a b : cpat) : comparison :=
+  match a, b with
+  | CPComp c, CPComp d => comp_cmp c d
+  | CPComp _, CPPat _ _ => Lt
+  | CPPat _ _, CPComp _ => Gt
+  | CPPat t tag, CPPat t' tag' => match t ?= t' with Eq => bytes_cmp tag tag' | r => r end
+  end.
+Fixpoint npat_cmp (a b : npat) : comparison :=
+  match a, b with
+  | [], [] => Eq
+  | [], _ => Lt
+  | _, [] => Gt
+  | c :: a', d :: b' => match cpat_cmp c d with Eq => npat_cmp a' b' | r => r end
+  end.
